@@ -158,10 +158,11 @@ theorem at_most_once_full_fails :
     runs it after the capture timeout" -/
 
 /-- a committed job is never lost: in every reachable state its row is still in the store
-    (committed) or it has been invoked -/
+    (committed) or it has been invoked — unless it cannot be prepared (`cfg.bad`: such a job is
+    logged and dropped, by design; `unpreparable_never_invoked`) -/
 theorem committed_never_lost (cfg : Cfg) (n : Nat) (steps : List Step) (j : Nat) (r : Row)
     (hr : (run cfg (init n) steps).rows[j]? = some r) (hv : r.vis = .deleted) :
-    ∃ t i, Ev.invoked j t i ∈ (run cfg (init n) steps).trace :=
+    (∃ t i, Ev.invoked j t i ∈ (run cfg (init n) steps).trace) ∨ j ∈ cfg.bad :=
   (safe_reachable cfg n steps).del j r hr hv
 
 theorem committed_stays (cfg : Cfg) (s : State) (steps : List Step) (j : Nat) (r : Row)
@@ -205,9 +206,10 @@ theorem crash_recovery (cfg : Cfg) (s : State) (i j : Nat) (inst : Inst) (r : Ro
 /-- the head of a running poll queue is invoked by the next step of the loop, at the current
     time, by that instance -/
 theorem poll_head_runs (cfg : Cfg) (s : State) (i a : Nat) (q : List Nat) (inst : Inst)
-    (hi : s.insts[i]? = some inst) (ha : inst.alive = true) (hp : inst.poll = .running (a :: q) false) :
+    (hi : s.insts[i]? = some inst) (ha : inst.alive = true) (hp : inst.poll = .running (a :: q) false)
+    (hgood : a ∉ cfg.bad) :
     Ev.invoked a s.clock i ∈ (step cfg s (.pollNext i)).trace := by
-  simp [step, stepPollNext, onInst, hi, ha, hp]
+  simp [step, stepPollNext, onInst, hi, ha, hp, hgood]
 
 -- the crash scenario end to end: instance 0 captures and dies, instance 1 runs the job later
 example : (run { pickup := 2, timeout := 3, batch := none } (init 2)
@@ -305,10 +307,10 @@ arbitrary steps.  No batch limit (`cfg.batch = none`). -/
     pass.  Formalises "If the scheduler that captured a job dies, another instance runs it
     after the capture timeout" for one attempt of that other instance, under arbitrary
     interference. -/
-theorem pass_progress (cfg : Cfg) (hb : cfg.batch = none) (s : State) (j : Nat) (p : List Step)
-    (hs : Safe s) (hp : FairPass cfg j s p) :
+theorem pass_progress (cfg : Cfg) (hb : cfg.batch = none) (s : State) (j : Nat) (hgood : j ∉ cfg.bad)
+    (p : List Step) (hs : Safe cfg s) (hp : FairPass cfg j s p) :
     Invoked (run cfg s p) j ∨ slack (run cfg s p) j + 1 ≤ slack s j + abandons cfg s p :=
-  pass_step cfg hb j s p hs hp
+  pass_step cfg hb j hgood s p hs hp
 
 /-- Eventual invocation.  "A job scheduled inside a transaction that commits is invoked at
     least once … If the scheduler that captured a job dies, another instance runs it after
@@ -319,14 +321,14 @@ theorem pass_progress (cfg : Cfg) (hb : cfg.batch = none) (s : State) (j : Nat) 
     has timed out), where `k` is at least the slack of the state plus the number of abandoned
     poll loops in `rest`: the job is invoked. -/
 theorem eventual_invocation (cfg : Cfg) (hb : cfg.batch = none) (n : Nat) (pre rest : List Step)
-    (j : Nat) (r : Row)
+    (j : Nat) (hgood : j ∉ cfg.bad) (r : Row)
     (hr : (run cfg (init n) pre).rows[j]? = some r) (hv : r.vis = .committed)
     (k : Nat) (hk : 1 ≤ k)
     (hf : FairPasses cfg j k (run cfg (init n) pre) rest)
     (hbound : slack (run cfg (init n) pre) j + abandons cfg (run cfg (init n) pre) rest ≤ k) :
     ∃ t x, Ev.invoked j t x ∈ (run cfg (init n) (pre ++ rest)).trace := by
   rw [run_append]
-  rcases fairPasses_bound cfg hb j hf (safe_reachable cfg n pre) ⟨r, hr, Or.inl hv⟩ with h | h | h
+  rcases fairPasses_bound cfg hb j hgood hf (safe_reachable cfg n pre) ⟨r, hr, Or.inl hv⟩ with h | h | h
   · exact h
   · omega
   · omega
@@ -334,7 +336,7 @@ theorem eventual_invocation (cfg : Cfg) (hb : cfg.batch = none) (n : Nat) (pre r
 /-- The same with the state-independent bound: slack never exceeds the number of instances
     plus one, so `n + 1 +` (abandoned poll loops in `rest`) fair passes are always enough. -/
 theorem eventual_invocation_instances (cfg : Cfg) (hb : cfg.batch = none) (n : Nat)
-    (pre rest : List Step) (j : Nat) (r : Row)
+    (pre rest : List Step) (j : Nat) (hgood : j ∉ cfg.bad) (r : Row)
     (hr : (run cfg (init n) pre).rows[j]? = some r) (hv : r.vis = .committed)
     (k : Nat)
     (hf : FairPasses cfg j k (run cfg (init n) pre) rest)
@@ -342,14 +344,14 @@ theorem eventual_invocation_instances (cfg : Cfg) (hb : cfg.batch = none) (n : N
     ∃ t x, Ev.invoked j t x ∈ (run cfg (init n) (pre ++ rest)).trace := by
   have h1 := slack_le (run cfg (init n) pre) j
   rw [run_insts_length] at h1
-  exact eventual_invocation cfg hb n pre rest j r hr hv k (by omega) hf (by omega)
+  exact eventual_invocation cfg hb n pre rest j hgood r hr hv k (by omega) hf (by omega)
 
 -- non-vacuity 1: instance 0 captures job 0 through its dispatcher and dies; slack is then 1
 -- (one live instance, row captured); one fair pass of instance 1 after the timeout
 example : ∃ t x, Ev.invoked 0 t x ∈ (run { pickup := 2, timeout := 3, batch := none } (init 2)
     ([.schedule 0 1 7 0, .commit 0, .tick 1, .pop 0, .task 0 0, .crash 0, .tick 4] ++
      [.pollSelect 1, .pollCapture 1, .pollNext 1, .pollNext 1])).trace := by
-  refine eventual_invocation { pickup := 2, timeout := 3, batch := none } rfl 2 _ _ 0
+  refine eventual_invocation { pickup := 2, timeout := 3, batch := none } rfl 2 _ _ 0 (by decide)
     { executeAt := 1, capturedAt := some 1, key := 7, vis := .committed } (by decide) rfl 1 (by decide) ?_ (by decide)
   refine FairPasses.succ 0 _ [] [.pollSelect 1, .pollCapture 1, .pollNext 1, .pollNext 1] [] ?_
     (FairPasses.zero _ _)
@@ -363,7 +365,7 @@ example : ∃ t x, Ev.invoked 0 t x ∈ (run { pickup := 2, timeout := 3, batch 
     ([.schedule 0 1 7 0, .commit 0, .crash 0, .tick 4] ++
      [.pollSelect 1, .pollSelect 2, .pollCapture 2, .crash 2, .pollCapture 1, .tick 3,
       .pollSelect 1, .pollCapture 1, .pollNext 1, .pollNext 1, .pollSelect 1, .pollCapture 1])).trace := by
-  refine eventual_invocation { pickup := 2, timeout := 3, batch := none } rfl 3 _ _ 0
+  refine eventual_invocation { pickup := 2, timeout := 3, batch := none } rfl 3 _ _ 0 (by decide)
     { executeAt := 1, capturedAt := none, key := 7, vis := .committed } (by decide) rfl 3 (by decide) ?_ (by decide)
   refine FairPasses.succ 2 _ [] [.pollSelect 1, .pollSelect 2, .pollCapture 2, .crash 2, .pollCapture 1]
     [.tick 3, .pollSelect 1, .pollCapture 1, .pollNext 1, .pollNext 1, .pollSelect 1, .pollCapture 1] ?_ ?_
@@ -384,5 +386,88 @@ example : (run { pickup := 2, timeout := 3, batch := none } (init 3)
     ∧ slack (run { pickup := 2, timeout := 3, batch := none } (init 3)
         [.schedule 0 1 7 0, .commit 0, .crash 0, .tick 4,
          .pollSelect 1, .pollSelect 2, .pollCapture 2, .crash 2, .pollCapture 1]) 0 = 1 := by decide
+
+/-! ### a job that cannot be prepared (`cfg.bad`: target function / argument serializer not
+    importable, `_prepare_job` raises) neither runs nor keeps other jobs from running
+
+Model of the code after `fix: a scheduled job that can't be prepared doesn't starve other jobs`:
+`_prepare_and_invoke_job` logs the failure and returns, the caller deletes the job.  Before the fix
+the exception left the loop of `_process_store_jobs` (the jobs captured behind the broken one were
+abandoned and, recaptured behind it after every timeout, starved) and, in `_process_memory_job`,
+left the job captured to be retried for ever.  `eventual_invocation` above holds for EVERY job
+`j ∉ cfg.bad`, whatever `cfg.bad` is: un-preparable jobs anywhere in the store, in front of `j`
+in every poll queue, do not cost a single extra pass. -/
+
+/-- an un-preparable job is never invoked (it is logged and dropped) -/
+theorem unpreparable_never_invoked (cfg : Cfg) (n : Nat) (steps : List Step) (j : Nat) (hbad : j ∈ cfg.bad)
+    (t i : Nat) : Ev.invoked j t i ∉ (run cfg (init n) steps).trace :=
+  fun h => noBad_reachable cfg n steps j t i h hbad
+
+/-- the store-poll loop is not left at an un-preparable head: the next three steps of the loop
+    (prepare fails + logged, delete, prepare + invoke of the next job) remove the broken job `a`
+    from the store and invoke the job `b` captured behind it — "A job scheduled inside a transaction
+    that commits is invoked at least once", for the jobs that share a poll with a broken one -/
+theorem unpreparable_head_does_not_block (cfg : Cfg) (s : State) (i a b : Nat) (q : List Nat) (inst : Inst)
+    (r : Row) (hi : s.insts[i]? = some inst) (ha : inst.alive = true)
+    (hp : inst.poll = .running (a :: b :: q) false) (hbad : a ∈ cfg.bad) (hgood : b ∉ cfg.bad)
+    (hr : s.rows[a]? = some r) (hv : r.vis = .committed) :
+    Ev.invoked b s.clock i ∈ (run cfg s [.pollNext i, .pollNext i, .pollNext i]).trace ∧
+      (run cfg s [.pollNext i, .pollNext i, .pollNext i]).rows[a]? = some { r with vis := .deleted } := by
+  have hlt : i < s.insts.length := (List.getElem?_eq_some_iff.mp hi).1
+  have hla : a < s.rows.length := (List.getElem?_eq_some_iff.mp hr).1
+  have hdel : del s.rows a = some (s.rows.set a { r with vis := .deleted }) := by
+    simp [del, hr, hv]
+  -- 1: prepare of `a` fails, logged; the loop goes on to the delete
+  have h1 := pollNext_bad_head cfg s i a (b :: q) inst hi ha hp hbad
+  have hi1 : (setInst s i { inst with poll := .running (a :: b :: q) true }).insts[i]? =
+      some { inst with poll := .running (a :: b :: q) true } := List.getElem?_set_self hlt
+  -- 2: delete of `a`
+  have h2 := pollNext_delete cfg _ i a (b :: q) _ _ hi1 ha rfl hdel
+  -- 3: prepare + invoke of `b`
+  have key : ∀ (S : State) (X : Inst), S.insts[i]? = some X → X.alive = true →
+      X.poll = .running (b :: q) false →
+      Ev.invoked b S.clock i ∈ (step cfg S (.pollNext i)).trace ∧ (step cfg S (.pollNext i)).rows = S.rows := by
+    intro S X g1 g2 g3
+    rw [pollNext_good_head cfg S i b q X g1 g2 g3 hgood]
+    simp
+  simp only [run]
+  rw [h1, h2]
+  have hl2 : i < (setInst s i { inst with poll := .running (a :: b :: q) true }).insts.length := by
+    simpa [setInst] using hlt
+  refine ⟨(key _ { inst with poll := if b :: q = [] then .idle else .running (b :: q) false } ?_ ?_ ?_).1,
+    Eq.trans (congrArg (fun rs => rs[a]?)
+      (key _ { inst with poll := if b :: q = [] then .idle else .running (b :: q) false } ?_ ?_ ?_).2) ?_⟩
+  · exact List.getElem?_set_self hl2
+  · exact ha
+  · simp
+  · exact List.getElem?_set_self hl2
+  · exact ha
+  · simp
+  · simp [hla]
+
+-- non-vacuity / regression (the former starvation witness): job 0 cannot be prepared, job 1 is
+-- valid, both are picked up by the store poll of instance 1 with job 0 in front: job 1 is invoked
+-- by that very pass (slack 2: one live instance + never captured; the second pass is a no-op)
+example : ∃ t x, Ev.invoked 1 t x ∈ (run { pickup := 1, timeout := 2, batch := none, bad := [0] } (init 2)
+    ([.schedule 0 0 7 0, .schedule 0 1 7 1, .commit 0, .commit 1, .crash 0, .tick 3] ++
+     [.pollSelect 1, .pollCapture 1, .pollNext 1, .pollNext 1, .pollNext 1, .pollNext 1,
+      .pollSelect 1, .pollCapture 1])).trace := by
+  refine eventual_invocation { pickup := 1, timeout := 2, batch := none, bad := [0] } rfl 2 _ _ 1 (by decide)
+    { executeAt := 1, capturedAt := none, key := 7, vis := .committed } (by decide) rfl 2 (by decide) ?_ (by decide)
+  refine FairPasses.succ 1 _ [] [.pollSelect 1, .pollCapture 1, .pollNext 1, .pollNext 1, .pollNext 1, .pollNext 1]
+    [.pollSelect 1, .pollCapture 1] ?_ ?_
+  · exact ⟨1, _, _, _, rfl, rfl, rfl, rfl, Or.inr ⟨_, rfl, by decide⟩, rfl, rfl, rfl⟩
+  refine FairPasses.succ 0 _ [] [.pollSelect 1, .pollCapture 1] [] ?_ (FairPasses.zero _ _)
+  exact ⟨1, _, _, _, rfl, rfl, rfl, rfl, Or.inl ⟨3, 1, by decide⟩, rfl, rfl, rfl⟩
+
+-- … and what the trace of that pass is: the broken job is captured and deleted, never invoked;
+-- the in-memory path drops a broken job in the same way (capture, no invocation, delete)
+example : (run { pickup := 1, timeout := 2, batch := none, bad := [0] } (init 2)
+    [.schedule 0 0 7 0, .schedule 0 1 7 1, .commit 0, .commit 1, .crash 0, .tick 3,
+     .pollSelect 1, .pollCapture 1, .pollNext 1, .pollNext 1, .pollNext 1, .pollNext 1]).trace =
+    [.deleted 1 3 1, .invoked 1 3 1, .deleted 0 3 1, .captured 1 3 1, .captured 0 3 1] ∧
+  (run { pickup := 1, timeout := 2, batch := none, bad := [0] } (init 1)
+    [.schedule 0 0 7 0, .commit 0, .pop 0, .task 0 0, .task 0 0, .task 0 0]).trace =
+    [.deleted 0 0 0, .captured 0 0 0] := by decide
 
 end Mistral.Props.C13
